@@ -113,6 +113,16 @@ package statf
 //@   perreturn
 //@   modifies buf.buf.bytes
 //@   ensures [C03] err == nil && buf.buf.bytes == pre
+//@   site Buffer).Write#1 assert [C03] buf.buf.bytes == e1
+//@   site Buffer).Write#2 assert [C03] buf.buf.bytes == e2
+//@   site Buffer).Write#3 assert [C03] buf.buf.bytes == e3
+//@   site Buffer).Write#4 assert [C03] buf.buf.bytes == e4
+//@   site Buffer).Write#5 assert [C03] buf.buf.bytes == e5
+//@   site Buffer).Write#6 assert [C03] buf.buf.bytes == e6
+//@   site if#7 assert [C03] buf.buf.bytes == e7
+//@   site if#9 assert [C03] buf.buf.bytes == e8
+//@   site if#11 assert [C03] buf.buf.bytes == e9
+//@   site if#13 assert [C03] buf.buf.bytes == e10
 //@   safety [C03]
 //
 //@ func (*StatMicMsgHead).WriteBlock
